@@ -243,7 +243,11 @@ func (r *stratRun) view(v hotstuff.View, s sview, timeouts bool) {
 	a.learn()
 }
 
-func stratProp(c stratCase) common.Result {
+func stratProp(c stratCase) common.Result { return stratRunWith(c, "C01") }
+
+// stratRunWith plays the strategy and applies the oracle of the given property: C01 ledgers after every view; C03 the vote
+// oracle over the honest replicas' signing log at the end; C07 the pacemaker monitor after every view.
+func stratRunWith(c stratCase, prop string) common.Result {
 	f := hotstuff.NumFaulty(c.N)
 	var actors []int
 	for i := 0; i < f; i++ {
@@ -267,6 +271,10 @@ func stratProp(c stratCase) common.Result {
 		r.victims[r.honest[i].Idx] = true
 	}
 	mon := &ledgerMonitor{cl: cl, checked: map[int]int{}}
+	pace := &paceMonitor{cl: cl, prev: map[int]paceState{}, steps: map[int]int{}}
+	if prop == "C07" {
+		pace.check()
+	}
 	v := hotstuff.View(1)
 	var plan []sview
 	for i := 0; i < c.Warm; i++ {
@@ -280,14 +288,36 @@ func stratProp(c stratCase) common.Result {
 		// warm-up views run without timeouts (the next block's certificate moves everybody on); from the first strategic
 		// view on every view ends with the honest replicas' timers firing, so that all of them enter the next view
 		r.view(v, s, i >= c.Warm-1)
-		if fp, msg := mon.check(); fp != "" {
-			return common.Fail(fp+":strategy:"+c.Rules, "after view %d of the strategy: %s\nstrategy: %+v", v, msg, c)
+		switch prop {
+		case "C01":
+			if fp, msg := mon.check(); fp != "" {
+				return common.Fail(fp+":strategy:"+c.Rules, "after view %d of the strategy: %s\nstrategy: %+v", v, msg, c)
+			}
+		case "C07":
+			if fp, msg := pace.check(); fp != "" {
+				return common.Fail(fp+":strategy:"+c.Rules, "after view %d of the strategy: %s\nstrategy: %+v", v, msg, c)
+			}
 		}
 		if cl.Inconclusive != "" {
-			common.Get("C01").Inconclusive(cl.Inconclusive)
+			common.Get(prop).Inconclusive(cl.Inconclusive)
 			return common.OK(false, "", "strategy inconclusive")
 		}
 		v++
+	}
+	if prop == "C03" {
+		fp, msg, _, signed := cl.voteOracle()
+		if fp != "" {
+			return common.Fail(fp+":strategy:"+c.Rules, "%s\nstrategy: %+v", msg, c)
+		}
+		total := 0
+		for _, n := range signed {
+			total += n
+		}
+		late := false
+		for _, sv := range c.Views {
+			late = late || sv.Late
+		}
+		return common.OK(total > 0 && (late || r.forks > 0), fmt.Sprintf("%+v", c), "strategy "+c.Rules, fmt.Sprintf("strategy late-proposal=%v", late), fmt.Sprintf("strategy equivocation=%v", r.forks > 0))
 	}
 	// classes: did the strategy have teeth?
 	certified := 0
@@ -419,4 +449,48 @@ func TestC01LeaderStrategies(t *testing.T) {
 		c.TailLen = rapid.IntRange(2, 5).Draw(rt, "taillen")
 		return c
 	}, stratProp)
+}
+
+func enumStrategies(depth int, yield func(stratCase) bool) {
+	alpha := stratAlphabet()
+	idx := make([]int, depth)
+	for {
+		for _, rules := range AllRules {
+			for warm := 1; warm <= 3; warm++ {
+				for _, tail := range []int{0, 2} {
+					c := stratCase{Rules: rules, N: 4, Victims: 1, Warm: warm, Tail: tail, TailLen: ChainLength(rules) + 1}
+					for _, k := range idx {
+						c.Views = append(c.Views, alpha[k])
+					}
+					if !yield(c) {
+						return
+					}
+				}
+			}
+		}
+		k := 0
+		for ; k < depth; k++ {
+			idx[k]++
+			if idx[k] < len(alpha) {
+				break
+			}
+			idx[k] = 0
+		}
+		if k == depth {
+			return
+		}
+	}
+}
+
+// TestC03StrategyVotes: the vote oracle (C03) over every strategy of 2 strategic views: late proposals after the receivers'
+// own timeouts and equivocation are exactly where "at most once per view, never after a timeout" is at stake.
+func TestC03StrategyVotes(t *testing.T) {
+	common.Exhaustive(t, "C03", "TestC03StrategyVotes", func(yield func(stratCase) bool) { enumStrategies(2, yield) },
+		func(c stratCase) common.Result { return stratRunWith(c, "C03") })
+}
+
+// TestC07StrategyPace: the pacemaker monitor (C07) after every view of every strategy of 2 strategic views.
+func TestC07StrategyPace(t *testing.T) {
+	common.Exhaustive(t, "C07", "TestC07StrategyPace", func(yield func(stratCase) bool) { enumStrategies(2, yield) },
+		func(c stratCase) common.Result { return stratRunWith(c, "C07") })
 }
